@@ -15,12 +15,12 @@ from rv import common as C
 from rv.props import c06
 from rv import contracts
 
-N_CASES = {'quick': 900, 'thorough': 20000}
+N_CASES = {'quick': 2700, 'thorough': 20000}
 TIMEOUT = {'quick': 1500, 'thorough': 6 * 3600}
 ANCHORS = ['lp:IPCone.to_pot', 'lp:IPCone.split', 'lp:IPCone.to_soc', 'socp:Model.do_math',
            'gcp:Model.do_math', 'lp:Model.do_math', 'lp:Affine.quad', 'lp:Affine.rsocone',
            'lp:Affine.power', 'lp:Affine.pnorm', 'lp:Affine.gmean']
-FLOORS = {'judged': {'quick': 600, 'thorough': 12000}, 'nontrivial': 120,
+FLOORS = {'judged': {'quick': 1800, 'thorough': 12000}, 'nontrivial': 120,
           'counters': {'pinned_judged': 200, 'improve_searches': 80, 'bruteforce_judged': 20}}
 RULE = ('(1) pinned-argument encodings of every atom with random admissible parameters '
         '(p-norm degrees 3..8 and rationals a/b<=12, exc floats, power p/q incl. arrays, gmean '
